@@ -35,6 +35,30 @@ Locals first bound inside a component (founddtstart … tzname) start at the rec
 UnboundLocalError if one were read earlier (they are read only under `value == comptype` / `elif comptype:`).
 `tzical.__init__` is checked to set `self._vtz = {}` before it calls `_parse_rfc`.
 Anything else raises Untranslatable(<construct>): a broken tie for C17.
+
+Second group (`translate_objects`): the small functions around the parsed zones, into the same generated file —
+  tzical.get / tzical.keys          on `self._vtz` (an insertion-ordered association list `List ICal.VTz`): `len(d)`, `next(iter(d))`
+                                    (first key, StopIteration when empty), `d.get(k)` (None when absent), `list(d.keys())`
+  _tzicalvtzcomp.__init__           a constructor: each `self.a = e` is a field of the record `RfcPy.CompObj`; `datetime.timedelta(seconds=n)`
+                                    = ObjPy.tdOfSeconds (OverflowError beyond the timedelta range)
+  _tzicalvtz.__init__               record `RfcPy.VtzObj` (`super().__init__()` and `_thread.allocate_lock()` are opaque: skipped / unit)
+  tzrangebase.__ne__                `return not (self == other)` over the translated `tzrange.__eq__`
+  tzrangebase.__init__              `raise NotImplementedError(...)`
+  _tzinfo._fold                     `getattr(dt, 'fold', 0)` = the datetime's fold (Python >= 3.6)
+  enfold (tz/_common.py)            the definition that is live on this interpreter (the branch of the module-level
+                                    `if hasattr(datetime, 'fold'):` is decided at translation time): `dt.replace(fold=fold)` =
+                                    RfcPy.replaceFold (ValueError unless fold is 0 or 1)
+  tzname_in_python2                 the decorator: with `six.PY2` false (decided at translation time) it returns its argument
+  tzical.__init__                   the argument is `RfcPy.FileArg` (a path, opened with `open(fileobj, 'r')`, or a stream wrapped in
+                                    `_nullcontext`; either way what `fobj.read()` yields, or the exception of open/read); `self._s` (only
+                                    used by __repr__) is not kept; `self._vtz = {}` must precede the `with`; the body of the `with` must be
+                                    `self._parse_rfc(fobj.read())`
+  tzrange._dst_base_offset          the property returns `self._dst_base_offset_`; the statement of `tzrange.__init__` that sets it
+                                    (`self._dst_offset - self._std_offset`, a timedelta subtraction) is translated with it
+Third group (`translate_factory_inits`, tz/_factories.py): the metaclass constructors `_TzSingleton.__init__`, `_TzOffsetFactory.__init__`,
+`_TzStrFactory.__init__` as the initial shared state `Fact.Glob` of the factory machine (C18): `weakref.WeakValueDictionary()` = the
+empty weak map, `OrderedDict()` = the empty strong cache, the integer literal = its capacity, `_thread.allocate_lock()` = a free lock,
+`cls.__instance = None` = an empty singleton slot; `super(...).__init__(*args, **kwargs)` (type.__init__) sets nothing.
 """
 import ast, os, hashlib
 from translate import Untranslatable, find_function
@@ -47,7 +71,9 @@ LOCALS = {"s": "CStr", "lines": "CStrList", "i": "Int", "line": "CStr", "name": 
           "parm": "CStr", "rr": "OptRR", "comp": "Comp", "r": "Int", "msg": "CStr"}
 LEAN_TY = {"CStr": "List Char", "CStrList": "List (List Char)", "Int": "Int", "Bool": "Bool", "OptCStr": "Option (List Char)",
            "OptInt": "Option Int", "OptRR": "Option RfcPy.RR", "RR": "RfcPy.RR", "Comp": "ICal.Comp", "CompList": "List ICal.Comp",
-           "VtzList": "List ICal.VTz", "IntList": "List Int", "Unit": "Unit"}
+           "VtzList": "List ICal.VTz", "IntList": "List Int", "Unit": "Unit", "OptVtz": "Option ICal.VTz", "Vtz": "ICal.VTz",
+           "TD": "Int", "OptRRObj": "Option RfcPy.RR", "KeyList": "List (DtPy.Dt × Int)", "OptZCompList": "List (Option ICal.ZComp)",
+           "Dt": "DtPy.Dt", "Zone": "TzStr.Zone"}
 ELEM = {"CStrList": "CStr", "IntList": "Int", "CompList": "Comp"}
 
 
@@ -89,7 +115,8 @@ class RfcTr:
         if ty == "StrLit" and want == "OptCStr": return "(some %s)" % str_lit(t)
         if ty == "None" and want.startswith("Opt"): return "(none : %s)" % LEAN_TY[want]
         if want == "Opt" + ty: return "(some %s)" % t
-        if ty == "EmptyList" and want in ELEM: return "([] : %s)" % LEAN_TY[want]
+        if ty == "EmptyList" and (want in ELEM or want in ("KeyList", "OptZCompList")): return "([] : %s)" % LEAN_TY[want]
+        if ty == "Bool" and want == "Bool": return t
         raise Untranslatable("%s where %s is expected" % (ty, want))
 
     # ---------------------------------------------------------------- expressions: (binds, term, type)
@@ -109,7 +136,10 @@ class RfcTr:
         if isinstance(e, ast.BinOp) and isinstance(e.op, (ast.Add, ast.Sub)):
             bl, l, tl = self.expr(e.left); br, r, tr = self.expr(e.right)
             if tl == tr == "Int":
-                return bl + br, "(%s %s %s)" % (l, "+" if isinstance(e.op, ast.Add) else "-", r), "Int"
+                return bl + br, "(%s %s %s)" % (l, "+" if isinstance(e.op, ast.Add) else "-", r), tl
+            if tl == tr == "TD":            # timedelta arithmetic: OverflowError when the result leaves the timedelta range
+                n = self.fresh()
+                return bl + br + [(n, "RfcPy.td%s %s %s" % ("Add" if isinstance(e.op, ast.Add) else "Sub", l, r))], n, "TD"
             if isinstance(e.op, ast.Add) and tr == "OptCStr" and tl in ("CStr", "StrLit"):      # str + None: TypeError
                 n = self.fresh()
                 br, r, tr = br + [(n, "RfcPy.needStr %s" % r)], n, "CStr"
@@ -152,6 +182,8 @@ class RfcTr:
         if isinstance(e, ast.Attribute):
             if self.self_attr(e, "_vtz"):
                 return [], self.ref("self__vtz")[0], "VtzList"
+            if self.self_attr(e) and ("self_" + e.attr) in self.types:
+                return [], "self_" + e.attr, self.types["self_" + e.attr]
             b, t, ty = self.expr(e.value)
             if ty == "OptRR" and e.attr in ("_rrule", "_exrule"):      # attribute of a possibly-None rule set: AttributeError
                 n = self.fresh()
@@ -167,7 +199,34 @@ class RfcTr:
         f = e.func
         if isinstance(f, ast.Name) and f.id == "len" and len(e.args) == 1 and not e.keywords:
             b, t, ty = self.expr(e.args[0])
-            if ty in ("CStr", "CStrList"): return b, "((%s).length : Int)" % t, "Int"
+            if ty in ("CStr", "CStrList", "VtzList"): return b, "((%s).length : Int)" % t, "Int"
+        if isinstance(f, ast.Name) and f.id == "next" and len(e.args) == 1 and not e.keywords and isinstance(e.args[0], ast.Call) \
+                and isinstance(e.args[0].func, ast.Name) and e.args[0].func.id == "iter" and len(e.args[0].args) == 1:
+            b, t, ty = self.expr(e.args[0].args[0])
+            if ty == "VtzList":
+                n = self.fresh()
+                return b + [(n, "RfcPy.firstKey %s" % t)], n, "CStr"
+        if isinstance(f, ast.Name) and f.id == "list" and len(e.args) == 1 and not e.keywords and isinstance(e.args[0], ast.Call) \
+                and isinstance(e.args[0].func, ast.Attribute) and e.args[0].func.attr == "keys" and not e.args[0].args:
+            b, t, ty = self.expr(e.args[0].func.value)
+            if ty == "VtzList": return b, "(RfcPy.dictKeys %s)" % t, "CStrList"
+        if isinstance(f, ast.Name) and f.id == "getattr" and len(e.args) == 3 and isinstance(e.args[1], ast.Constant) and e.args[1].value == "fold" \
+                and isinstance(e.args[2], ast.Constant) and e.args[2].value == 0:
+            b, t, ty = self.expr(e.args[0])
+            if ty == "Dt": return b, "(DtPy.foldOf %s)" % t, "Int"          # datetimes always have `fold` (Python >= 3.6)
+        if isinstance(f, ast.Attribute) and isinstance(f.value, ast.Name) and f.value.id == "datetime" and f.attr == "timedelta" \
+                and not e.args and len(e.keywords) == 1 and e.keywords[0].arg == "seconds":
+            b, t, ty = self.expr(e.keywords[0].value)
+            if ty != "Int": raise Untranslatable("timedelta(seconds=%s)" % ty)
+            n = self.fresh()
+            return b + [(n, "ObjPy.tdOfSeconds %s" % t)], n, "TD"
+        if isinstance(f, ast.Attribute) and isinstance(f.value, ast.Name) and f.value.id == "_thread" and f.attr == "allocate_lock" and not e.args:
+            return [], "()", "Unit"
+        if isinstance(f, ast.Attribute) and f.attr == "get" and len(e.args) == 1 and not e.keywords:
+            b, t, ty = self.expr(f.value)
+            if ty == "VtzList":
+                bk, k, tk = self.expr(e.args[0])
+                return b + bk, "(RfcPy.dictGet %s %s)" % (t, self.coerce(k, tk, "OptCStr")), "OptVtz"
         if isinstance(f, ast.Name) and f.id == "_tzicalvtzcomp" and len(e.args) == 5 and not e.keywords:
             binds, args = [], []
             for a, want in zip(e.args, ("OptInt", "OptInt", "Bool", "OptCStr", "OptRR")):
@@ -246,6 +305,9 @@ class RfcTr:
             if sym:
                 bl, l, tl = self.expr(e.left); br, r, tr = self.expr(right)
                 if tl == tr == "Int": return bl + br, "(%s %s %s)" % (l, sym, r)
+                if tl == tr == "Zone" and sym == "=" and getattr(self, "eq_fn", None):       # self == other: the class's translated __eq__
+                    n = self.fresh()
+                    return bl + br + [(n, "%s %s %s" % (self.eq_fn, l, r))], "(%s = true)" % n
                 if sym in ("=", "≠"):
                     if tl == "CStr" and tr in ("StrLit", "CStr"): return bl + br, "(%s %s %s)" % (l, sym, self.coerce(r, tr, "CStr"))
                     if tl == "CStr" and tr == "OptCStr": return bl + br, "((some %s) %s %s)" % (l, sym, r)      # str == None is False
@@ -334,6 +396,24 @@ class RfcTr:
         if isinstance(s, ast.Continue):
             if self.mode != "line" or getattr(self, "in_for", False): raise Untranslatable("continue")
             return "%s.ok st" % pad
+        if isinstance(s, ast.Return) and getattr(self, "ret", None):
+            if s.value is None: raise Untranslatable("bare return")
+            b, t, ty = self.expr(s.value)
+            return self.wrap(b, pad, "%s.ok %s" % (pad, self.coerce(t, ty, self.ret)))
+        if isinstance(s, ast.Expr) and isinstance(s.value, ast.Call) and isinstance(s.value.func, ast.Attribute) and s.value.func.attr == "__init__" \
+                and isinstance(s.value.func.value, ast.Call) and isinstance(s.value.func.value.func, ast.Name) and s.value.func.value.func.id == "super" \
+                and not s.value.args and getattr(self, "ctor", None):
+            return R()           # the base class (_tzinfo / tzinfo) constructor sets no attribute
+        if isinstance(s, ast.Assign) and len(s.targets) == 1 and self.self_attr(s.targets[0]) and getattr(self, "ctor", None):
+            a = s.targets[0].attr
+            if a not in self.ctor: raise Untranslatable("constructor sets self.%s" % a)
+            b, v, ty = self.expr(s.value)
+            want = self.ctor[a]
+            self.types["self_" + a] = want
+            return self.wrap(b, pad, "%slet self_%s : %s := %s\n%s" % (pad, a, LEAN_TY[want], self.coerce(v, ty, want), R()))
+        if isinstance(s, ast.Raise) and isinstance(s.exc, ast.Call) and isinstance(s.exc.func, ast.Name) and s.exc.func.id == "NotImplementedError" \
+                and all(isinstance(a, ast.Constant) for a in s.exc.args):
+            return "%s.error .NotImplemented" % pad
         if isinstance(s, ast.Raise):
             if not (isinstance(s.exc, ast.Call) and isinstance(s.exc.func, ast.Name) and s.exc.func.id == "ValueError" and s.cause is None):
                 raise Untranslatable("raise shape")
@@ -471,10 +551,210 @@ def translate_parse_rfc(tree):
     return "\n".join(out), hashlib.sha256(ast.dump(fn).encode()).hexdigest()[:16]
 
 
+def _fn_text(tree, qual, lean_name, params, ret, doc, self_params=(), ctor=None, ctor_struct=None, eq_fn=None, self_types=None):
+    fn = find_function(tree, qual)
+    formals = [a.arg for a in fn.args.args if a.arg != "self"]
+    if formals != [p for p, _ in params]: raise Untranslatable("signature of %s is %s" % (qual, formals))
+    for d in fn.args.defaults:
+        if not (isinstance(d, ast.Constant) and d.value is None) and not (isinstance(d, ast.List) and not d.elts):
+            raise Untranslatable("default of %s" % qual)
+    tr = RfcTr("plain")
+    tr.types = dict(params)
+    for n, t in (self_types or {}).items(): tr.types[n] = t
+    tr.ret = ret
+    tr.ctor = ctor
+    tr.eq_fn = eq_fn
+    if ctor:
+        k = ".ok { %s }" % ", ".join("%s := self_%s" % (lf, a) for a, lf in ctor_struct)
+        body = tr.block(list(fn.body), k, 1)
+        for a, _ in ctor_struct:
+            if "self_" + a not in tr.types: raise Untranslatable("%s does not set self.%s" % (qual, a))
+    else:
+        body = tr.block(list(fn.body), ".ok ()", 1)
+    args = " ".join(["(%s : %s)" % (n, LEAN_TY[t]) for n, t in self_params] + ["(%s : %s)" % (n, LEAN_TY[t]) for n, t in params])
+    text = "/-- translated from `%s`%s -/\ndef %s %s : Py.R (%s) :=\n%s\n" % (qual, doc, lean_name, args, ret if ret in ("RfcPy.CompObj", "RfcPy.VtzObj") else LEAN_TY[ret], body)
+    return text, hashlib.sha256(ast.dump(fn).encode()).hexdigest()[:16]
+
+
+def translate_objects(tree, common):
+    out, fps = [], {}
+    def add(t, qual, *a, **kw):
+        text, fp = _fn_text(t, qual, *a, **kw)
+        out.append(text); fps[qual] = fp
+    add(tree, "tzical.get", "tzical_get", [("tzid", "OptCStr")], "OptVtz", " (`self._vtz` as the insertion-ordered list of zones)",
+        self_params=[("self__vtz", "VtzList")], self_types={"self__vtz": "VtzList"})
+    add(tree, "tzical.keys", "tzical_keys", [], "CStrList", "", self_params=[("self__vtz", "VtzList")], self_types={"self__vtz": "VtzList"})
+    add(tree, "_tzicalvtzcomp.__init__", "tzicalvtzcomp_init",
+        [("tzoffsetfrom", "Int"), ("tzoffsetto", "Int"), ("isdst", "Bool"), ("tzname", "OptCStr"), ("rrule", "OptRRObj")], "RfcPy.CompObj",
+        ": the component object as the record of the attributes it sets (offsets as timedeltas in microseconds)",
+        ctor={"tzoffsetfrom": "TD", "tzoffsetto": "TD", "tzoffsetdiff": "TD", "isdst": "Bool", "tzname": "OptCStr", "rrule": "OptRRObj"},
+        ctor_struct=[(a, a) for a in ("tzoffsetfrom", "tzoffsetto", "tzoffsetdiff", "isdst", "tzname", "rrule")])
+    add(tree, "_tzicalvtz.__init__", "tzicalvtz_init", [("tzid", "OptCStr"), ("comps", "CompList")], "RfcPy.VtzObj",
+        ": the zone object as the record of the attributes it sets; both cache lists start empty",
+        ctor={"_tzid": "OptCStr", "_comps": "CompList", "_cachedate": "KeyList", "_cachecomp": "OptZCompList", "_cache_lock": "Unit"},
+        ctor_struct=[("_tzid", "tzid"), ("_comps", "comps"), ("_cachedate", "cachedate"), ("_cachecomp", "cachecomp")])
+    add(common, "tzrangebase.__ne__", "tzrange_ne", [("other", "Zone")], "Bool", " over the translated `tzrange.__eq__`",
+        self_params=[("self", "Zone")], eq_fn="tzrange_eq", self_types={"self": "Zone"})
+    add(common, "tzrangebase.__init__", "tzrangebase_init", [], "Unit", " (abstract base class)")
+    add(common, "_tzinfo._fold", "tzinfo_fold", [("dt", "Dt")], "Int", "")
+    return "\n".join(out), fps
+
+
+def translate_tzical_init(tree):
+    fn = find_function(tree, "tzical.__init__")
+    if [a.arg for a in fn.args.args] != ["self", "fileobj"]: raise Untranslatable("signature of tzical.__init__")
+    body = [st for st in fn.body if not isinstance(st, (ast.Global, ast.Import, ast.ImportFrom)) and not (isinstance(st, ast.Expr) and isinstance(st.value, ast.Constant))]
+    if len(body) != 3: raise Untranslatable("tzical.__init__: %d statements after the imports" % len(body))
+    br, vt, wi = body
+    def sets_s_and_rebinds(stmts, how):
+        if len(stmts) != 2: return False
+        a, b = stmts
+        if not (isinstance(a, ast.Assign) and len(a.targets) == 1 and isinstance(a.targets[0], ast.Attribute) and a.targets[0].attr == "_s"): return False
+        if not (isinstance(b, ast.Assign) and len(b.targets) == 1 and isinstance(b.targets[0], ast.Name) and b.targets[0].id == "fileobj"
+                and isinstance(b.value, ast.Call) and isinstance(b.value.func, ast.Name) and b.value.func.id == how
+                and b.value.args and isinstance(b.value.args[0], ast.Name) and b.value.args[0].id == "fileobj"): return False
+        if how == "open" and not (len(b.value.args) == 2 and isinstance(b.value.args[1], ast.Constant) and b.value.args[1].value == "r" and not b.value.keywords): return False
+        if how == "_nullcontext" and (len(b.value.args) != 1 or b.value.keywords): return False
+        return True
+    ok = isinstance(br, ast.If) and isinstance(br.test, ast.Call) and isinstance(br.test.func, ast.Name) and br.test.func.id == "isinstance" \
+        and len(br.test.args) == 2 and isinstance(br.test.args[0], ast.Name) and br.test.args[0].id == "fileobj" \
+        and isinstance(br.test.args[1], ast.Name) and br.test.args[1].id == "string_types" \
+        and sets_s_and_rebinds(br.body, "open") and sets_s_and_rebinds(br.orelse, "_nullcontext")
+    if not ok: raise Untranslatable("tzical.__init__: the path / stream branch")
+    if not (isinstance(vt, ast.Assign) and len(vt.targets) == 1 and isinstance(vt.targets[0], ast.Attribute) and vt.targets[0].attr == "_vtz"
+            and isinstance(vt.value, ast.Dict) and not vt.value.keys):
+        raise Untranslatable("tzical.__init__: self._vtz = {}")
+    ok = isinstance(wi, ast.With) and len(wi.items) == 1 and isinstance(wi.items[0].context_expr, ast.Name) and wi.items[0].context_expr.id == "fileobj" \
+        and isinstance(wi.items[0].optional_vars, ast.Name) and len(wi.body) == 1 and isinstance(wi.body[0], ast.Expr)
+    if ok:
+        c = wi.body[0].value
+        v = wi.items[0].optional_vars.id
+        ok = isinstance(c, ast.Call) and isinstance(c.func, ast.Attribute) and c.func.attr == "_parse_rfc" and isinstance(c.func.value, ast.Name) \
+            and c.func.value.id == "self" and len(c.args) == 1 and not c.keywords and isinstance(c.args[0], ast.Call) and not c.args[0].args \
+            and isinstance(c.args[0].func, ast.Attribute) and c.args[0].func.attr == "read" and isinstance(c.args[0].func.value, ast.Name) and c.args[0].func.value.id == v
+    if not ok: raise Untranslatable("tzical.__init__: with fileobj as fobj: self._parse_rfc(fobj.read())")
+    text = ("/-- translated from `tzical.__init__`: open / wrap the argument, start from an empty `_vtz`, parse what `read()` returns -/\n"
+            "def tzical_init (rrulestr : ICal.RRuleLib) (fileobj : RfcPy.FileArg) : Py.R ICal.PState :=\n"
+            "  -- if isinstance(fileobj, string_types): fileobj = open(fileobj, 'r')  else: fileobj = _nullcontext(fileobj)\n"
+            "  -- self._vtz = {}   (the translated _parse_rfc starts from the empty record)\n"
+            "  Except.bind (RfcPy.FileArg.openRead fileobj) fun t1 =>\n"
+            "  tzical_parseRfc rrulestr t1\n")
+    return text, {"tzical.__init__": hashlib.sha256(ast.dump(fn).encode()).hexdigest()[:16]}
+
+
+def translate_dst_base_offset(tree):
+    init = find_function(tree, "tzrange.__init__")
+    found = False
+    for st in init.body:
+        if isinstance(st, ast.Assign) and len(st.targets) == 1 and isinstance(st.targets[0], ast.Attribute) and st.targets[0].attr == "_dst_base_offset_":
+            v = st.value
+            found = isinstance(v, ast.BinOp) and isinstance(v.op, ast.Sub) and all(isinstance(x, ast.Attribute) and isinstance(x.value, ast.Name) and x.value.id == "self" for x in (v.left, v.right)) \
+                and v.left.attr == "_dst_offset" and v.right.attr == "_std_offset"
+    if not found: raise Untranslatable("tzrange.__init__: self._dst_base_offset_ = self._dst_offset - self._std_offset")
+    fn = find_function(tree, "tzrange._dst_base_offset")
+    body = [st for st in fn.body if not (isinstance(st, ast.Expr) and isinstance(st.value, ast.Constant))]
+    ok = [a.arg for a in fn.args.args] == ["self"] and len(body) == 1 and isinstance(body[0], ast.Return) and isinstance(body[0].value, ast.Attribute) \
+        and isinstance(body[0].value.value, ast.Name) and body[0].value.value.id == "self" and body[0].value.attr == "_dst_base_offset_" \
+        and any(isinstance(d, ast.Name) and d.id == "property" for d in fn.decorator_list)
+    if not ok: raise Untranslatable("tzrange._dst_base_offset shape")
+    text = ("/-- translated from `tzrange.__init__`, the statement `self._dst_base_offset_ = self._dst_offset - self._std_offset` (timedeltas in microseconds) -/\n"
+            "def tzrange_initDstBaseOffset (self__dst_offset : Int) (self__std_offset : Int) : Py.R Int :=\n  RfcPy.tdSub self__dst_offset self__std_offset\n\n"
+            "/-- translated from the property `tzrange._dst_base_offset` -/\n"
+            "def tzrange_dstBaseOffsetProp (self__dst_base_offset_ : Int) : Py.R Int :=\n  .ok self__dst_base_offset_\n")
+    return text, {"tzrange._dst_base_offset": hashlib.sha256((ast.dump(fn) + ast.dump(init)).encode()).hexdigest()[:16]}
+
+
+def translate_common_helpers(common):
+    """`enfold` and `tzname_in_python2`: module-level / interpreter-dependent branches are decided the way this interpreter decides them"""
+    import datetime as _dt, six
+    out, fps = [], {}
+    # enfold: the live definition
+    live = None
+    for node in common.body:
+        if isinstance(node, ast.If) and isinstance(node.test, ast.Call) and isinstance(node.test.func, ast.Name) and node.test.func.id == "hasattr" \
+                and len(node.test.args) == 2 and isinstance(node.test.args[0], ast.Name) and node.test.args[0].id == "datetime" \
+                and isinstance(node.test.args[1], ast.Constant) and node.test.args[1].value == "fold":
+            branch = node.body if hasattr(_dt.datetime, "fold") else node.orelse
+            for st in branch:
+                if isinstance(st, ast.FunctionDef) and st.name == "enfold": live = st
+    if live is None: raise Untranslatable("enfold: no live definition under `if hasattr(datetime, 'fold')`")
+    if [a.arg for a in live.args.args] != ["dt", "fold"] or len(live.args.defaults) != 1 or not (isinstance(live.args.defaults[0], ast.Constant) and live.args.defaults[0].value == 1):
+        raise Untranslatable("signature of enfold")
+    body = [st for st in live.body if not (isinstance(st, ast.Expr) and isinstance(st.value, ast.Constant))]
+    ok = len(body) == 1 and isinstance(body[0], ast.Return) and isinstance(body[0].value, ast.Call) and isinstance(body[0].value.func, ast.Attribute) \
+        and body[0].value.func.attr == "replace" and isinstance(body[0].value.func.value, ast.Name) and body[0].value.func.value.id == "dt" \
+        and not body[0].value.args and len(body[0].value.keywords) == 1 and body[0].value.keywords[0].arg == "fold" \
+        and isinstance(body[0].value.keywords[0].value, ast.Name) and body[0].value.keywords[0].value.id == "fold"
+    if not ok: raise Untranslatable("enfold body")
+    out.append("/-- translated from `enfold` (tz/_common.py, the definition live on Python >= 3.6; default `fold=1`) -/\n"
+               "def enfold (dt : DtPy.Dt) (fold : Int := 1) : Py.R DtPy.Dt :=\n  RfcPy.replaceFold dt fold\n")
+    fps["enfold"] = hashlib.sha256(ast.dump(live).encode()).hexdigest()[:16]
+    # tzname_in_python2
+    fn = find_function(common, "tzname_in_python2")
+    body = [st for st in fn.body if not (isinstance(st, ast.Expr) and isinstance(st.value, ast.Constant))]
+    if [a.arg for a in fn.args.args] != ["namefunc"] or len(body) != 1 or not isinstance(body[0], ast.If) \
+            or not (isinstance(body[0].test, ast.Name) and body[0].test.id == "PY2"):
+        raise Untranslatable("tzname_in_python2 shape")
+    branch = body[0].body if six.PY2 else body[0].orelse
+    if not (len(branch) == 1 and isinstance(branch[0], ast.Return) and isinstance(branch[0].value, ast.Name) and branch[0].value.id == "namefunc"):
+        raise Untranslatable("tzname_in_python2: the Python 3 branch does not return its argument")
+    out.append("/-- translated from `tzname_in_python2` with `six.PY2` false: the decorator returns the method it is given -/\n"
+               "def tznameInPython2 {α : Type} (namefunc : α) : α :=\n  namefunc\n")
+    fps["tzname_in_python2"] = hashlib.sha256(ast.dump(fn).encode()).hexdigest()[:16]
+    return "\n".join(out), fps
+
+
+def translate_factory_inits(tree):
+    out, fps = [], {}
+    for cls, lean in (("_TzSingleton", "tzSingleton_init"), ("_TzOffsetFactory", "tzOffsetFactory_init"), ("_TzStrFactory", "tzStrFactory_init")):
+        qual = cls + ".__init__"
+        fn = find_function(tree, qual)
+        if [a.arg for a in fn.args.args] != ["cls"] or not fn.args.vararg or not fn.args.kwarg: raise Untranslatable("signature of %s" % qual)
+        fields = {}
+        for st in fn.body:
+            if isinstance(st, ast.Expr) and isinstance(st.value, ast.Constant): continue
+            if isinstance(st, ast.Expr) and isinstance(st.value, ast.Call) and isinstance(st.value.func, ast.Attribute) and st.value.func.attr == "__init__" \
+                    and isinstance(st.value.func.value, ast.Call) and isinstance(st.value.func.value.func, ast.Name) and st.value.func.value.func.id == "super":
+                continue
+            if not (isinstance(st, ast.Assign) and len(st.targets) == 1 and isinstance(st.targets[0], ast.Attribute)
+                    and isinstance(st.targets[0].value, ast.Name) and st.targets[0].value.id == "cls"):
+                raise Untranslatable("%s: statement %s" % (qual, type(st).__name__))
+            a, v = st.targets[0].attr, st.value
+            def is_call(v, mod, name):
+                return isinstance(v, ast.Call) and not v.args and not v.keywords and (
+                    (isinstance(v.func, ast.Attribute) and isinstance(v.func.value, ast.Name) and v.func.value.id == mod and v.func.attr == name)
+                    or (mod is None and isinstance(v.func, ast.Name) and v.func.id == name))
+            if a == "__instances" and is_call(v, "weakref", "WeakValueDictionary"): fields["weak"] = "fun _ => none"
+            elif a == "__strong_cache" and is_call(v, None, "OrderedDict"): fields["strong"] = "[]"
+            elif a == "__strong_cache_size" and isinstance(v, ast.Constant) and isinstance(v.value, int) and v.value is not True and v.value >= 0:
+                fields["cap"] = str(v.value)
+            elif a in ("_cache_lock", "__cache_lock") and is_call(v, "_thread", "allocate_lock"): fields["lock"] = "none"
+            elif a == "__instance" and isinstance(v, ast.Constant) and v.value is None: fields["single"] = "none"
+            else: raise Untranslatable("%s sets cls.%s" % (qual, a))
+        want = {"single"} if cls == "_TzSingleton" else {"weak", "strong", "cap", "lock"}
+        if set(fields) != want: raise Untranslatable("%s sets %s" % (qual, sorted(fields)))
+        # every attribute the constructor does not set is absent; the record's other fields are ghost state of the machine
+        body = ", ".join("%s := %s" % (k, fields[k]) for k in ("weak", "strong", "cap", "lock", "single") if k in fields)
+        out.append("/-- translated from `%s`: the shared state of the factory right after the class is created -/\ndef %s : Fact.Glob :=\n  { %s }\n" % (qual, lean, body))
+        fps[qual] = hashlib.sha256(ast.dump(fn).encode()).hexdigest()[:16]
+    return "\n".join(out), fps
+
+
 def translate_files(src_root, groups):
     tree = ast.parse(open(os.path.join(src_root, "tz", "tz.py")).read())
+    common = ast.parse(open(os.path.join(src_root, "tz", "_common.py")).read())
     text, fp = translate_parse_rfc(tree)
-    return text, {"tzical._parse_rfc": fp}
+    text2, fps = translate_objects(tree, common)
+    fps["tzical._parse_rfc"] = fp
+    text3, fps3 = translate_factory_inits(ast.parse(open(os.path.join(src_root, "tz", "_factories.py")).read()))
+    fps.update(fps3)
+    text4, fps4 = translate_common_helpers(common)
+    fps.update(fps4)
+    text5, fps5 = translate_tzical_init(tree)
+    fps.update(fps5)
+    text6, fps6 = translate_dst_base_offset(tree)
+    fps.update(fps6)
+    return text + "\n" + text2 + "\n" + text3 + "\n" + text4 + "\n" + text5 + "\n" + text6, fps
 
 
 RFC_GROUPS = [("tz/tz.py", ["tzical._parse_rfc"])]
